@@ -448,6 +448,45 @@ std::map<std::string, uint64_t> run_features(Sim& s) {
     for (auto& c : s.broker.conns) if (c) { maxinf = std::max(maxinf, c->max_inflight); if (c->caps.recv_max && c->max_inflight >= *c->caps.recv_max) hit_limit = true; }
     f["max_inflight"] = maxinf; f["recv_max_reached"] = hit_limit;
     f["pkts_from_client"] = s.broker.recv.size(); f["pkts_to_client"] = s.broker.sent.size();
+    size_t q12 = 0, recv_ok = 0, cap_rej = 0;
+    for (auto& o : s.ops) for (auto& d : o.dones) {
+        if (o.kind == OpKind::publish && o.qos > 0 && !d.c.ec) ++q12;
+        if (o.kind == OpKind::receive && !d.c.ec) ++recv_ok;
+        if (std::string(d.c.ec.category().name()) == "mqtt_client_error" && (d.c.ec.value() == 101 || (d.c.ec.value() >= 105 && d.c.ec.value() <= 110))) ++cap_rej;
+    }
+    f["pub_q12_success"] = q12; f["msgs_received_by_app"] = recv_ok; f["cap_rejections"] = cap_rej;
+    size_t pidp = 0, pings = 0, max_ops_conn = 0, with_props = 0, hostile_deliv = 0, subacks = 0;
+    std::map<int, std::set<std::string>> topics_per_conn;
+    for (auto& r : s.broker.recv) {
+        if (!r.decode_err.empty()) continue;
+        if ((r.pkt.type == PUBLISH && r.pkt.qos > 0) || r.pkt.type == SUBSCRIBE || r.pkt.type == UNSUBSCRIBE) ++pidp;
+        if (r.pkt.type == PINGREQ) ++pings;
+        if (r.pkt.type == PUBLISH) topics_per_conn[r.conn].insert(r.pkt.topic);
+    }
+    for (auto& [c, t] : topics_per_conn) max_ops_conn = std::max(max_ops_conn, t.size());
+    for (auto& sp : s.broker.sent) {
+        if (!sp.delivered_seq) continue;
+        if (!sp.pkt.props.empty()) ++with_props;
+        if (sp.hostile) ++hostile_deliv;
+        if (sp.pkt.type == SUBACK || sp.pkt.type == UNSUBACK) ++subacks;
+    }
+    f["pid_packets"] = pidp; f["pingreqs"] = pings; f["max_pub_ops_on_conn"] = max_ops_conn;
+    f["pkts_to_client_with_props"] = with_props; f["hostile_delivered"] = hostile_deliv; f["subacks_delivered"] = subacks;
+    size_t ka = 0; for (auto& r : s.net.reads) if (r.end == sim::ReadRec::slot_cancel) ++ka;
+    f["ka_judged"] = ka;
+    // a reconnect that ended with Session Present 0 after a successful subscribe
+    size_t lost_with_subs = 0; bool subs = false;
+    {
+        std::vector<std::pair<uint64_t, int>> ev;   // (seq, kind): 1 = subscribe success, 2 = connack sp=0
+        for (auto& o : s.ops) if (o.kind == OpKind::subscribe && !o.dones.empty() && !o.dones[0].c.ec) for (auto rc : o.dones[0].c.rcs) if (rc < 0x80) { ev.push_back({o.dones[0].seq, 1}); break; }
+        for (auto& l : s.logs) if (l.k == LogRec::connack && l.rc == 0 && !l.session_present) ev.push_back({l.seq, 2});
+        std::sort(ev.begin(), ev.end());
+        for (auto& e : ev) { if (e.second == 1) subs = true; else if (subs) { ++lost_with_subs; subs = false; } }
+    }
+    f["session_lost_with_subs"] = lost_with_subs;
+    size_t lim = 0;
+    for (auto& c : s.broker.conns) if (c && c->connack_sent_idx >= 0) { auto& k = c->caps; if (k.max_qos || k.retain_avail || k.max_packet || k.topic_alias_max || k.wildcard || k.subid || k.shared) ++lim; }
+    f["limiting_caps"] = lim;
     return f;
 }
 
